@@ -8,11 +8,12 @@ VARIABLE l
 Tr == ndJsonDeserialize(IOEnv.TRACE)
 
 IsSoft(e)  == /\ e.ended = "returned" /\ e.changed = FALSE
-              /\ (Rows[e.row].fail = "ANY" \/ (e.rv = Rows[e.row].fail /\ e.heapdelta = 0))
+              /\ (Expected(e.row, e.variant) = "ANY" \/ (e.rv = Expected(e.row, e.variant) /\ e.heapdelta = 0))
               /\ e.diag \in {"none", "warning", "debug"}
 IsFatal(e) == /\ e.ended = "exit" /\ e.diag = "fatal" /\ e.status # 0
-Accept(e)  == \/ "soft" \in Allowed(e.row, e.level) /\ IsSoft(e)
-              \/ "fatal" \in Allowed(e.row, e.level) /\ IsFatal(e)
+Accept(e)  == /\ e.variant \in Variants(e.row)
+              /\ \/ "soft" \in Allowed(e.row, e.level) /\ IsSoft(e)
+                 \/ "fatal" \in Allowed(e.row, e.level) /\ IsFatal(e)
 
 ObsTrace(op, args, ret, post) == TRUE
 TraceInit == Init /\ l = 1
